@@ -3,6 +3,7 @@ import itertools
 import json
 import time
 
+from ..sexp import Q
 from .. import classes, framework, leanio, oracle, sexp, tyconv, types_gen, values
 from . import infer_common as ic
 
@@ -140,6 +141,28 @@ def run(pid, tier, seed):
                 except (tyconv.Unrepresentable, TypeError):
                     continue
                 inputs.append((uraw, u, wit, origin))
+    # values that contain themselves (oracle only: the model's values are trees): the type get_type gives them, through every
+    # rewriter, must still admit them
+    import collections as _c
+
+    def cyclic_values():
+        l = [1]; l.append(l)
+        d = {}; d[1] = d; d[2] = {3: 4}
+        e = {"a": None, "b": {"x": 1}}; e["a"] = e
+        t = ([],); t[0].append(t); t[0].append([2])
+        s_ = _c.defaultdict(list); s_["x"].append(s_); s_["y"].append(1)
+        return [("list-in-itself", l), ("dict-with-itself-and-a-dict", d), ("str-keyed-dict-with-itself", e), ("tuple-list-cycle", t),
+                ("defaultdict-cycle", s_)]
+    for cname, v in cyclic_values():
+        for k in (0, 3):
+            try:
+                ct = get_type(v, k)
+                craw = tyconv.ty_to_tree(ct, tbl)
+            except Exception as e:
+                chk.fail("crash-in-inference", {"cyclic_value": cname, "k": k, "error": repr(e)[:200]})
+                continue
+            inputs.append((craw, ct, [(v, Q("<" + cname + ">"))], "yield-union-raw"))
+            chk.count("input.cyclic")
     drv.ask(tbl.hier())
     hier_ok = drv.ask(("hierOk",))
     chk.extra["class_table_hypotheses_hold"] = hier_ok
